@@ -152,8 +152,11 @@ where
                 //
                 // Same application of constraining domain is done for the other two variables.
                 //
-                // The constraint is not dropped until all variables converge into numbers.
+                // The constraint is not dropped until all variables converge into numbers. It
+                // goes back to the store first, so that it is re-run if the narrowing below
+                // binds one of its operands.
                 Ok(state
+                    .with_constraint(self.clone())
                     .process_domain(
                         &wwalk,
                         Rc::new(FiniteDomain::from(
@@ -171,8 +174,7 @@ where
                         Rc::new(FiniteDomain::from(
                             wmin.saturating_sub(umax)..=wmax.saturating_sub(umin),
                         )),
-                    )?
-                    .with_constraint(self))
+                    )?)
             }
             // If all operators do not yet have domains, then keep the constraint until it can
             // be used to constrain some domains.
